@@ -1,0 +1,16 @@
+//go:build verif
+// +build verif
+
+package service
+
+import (
+	"net"
+
+	"github.com/cnotch/ipchub/provider/auth"
+)
+
+// VerifListen starts the real multiplexed listener on addr (verification builds only).
+func (s *Service) VerifListen(addr *net.TCPAddr) { s.listen(addr, nil) }
+
+// VerifTokens exposes the token manager.
+func (s *Service) VerifTokens() *auth.TokenManager { return s.tokens }
